@@ -12,7 +12,9 @@ INFO = {
                    "are reachable only over the FREEZE_SETTINGS-clear edge, the frozen edge writes at most the two limits, and "
                    "the freeze bit can only be touched from the clear edge; (R4) deleverage: start requires the risk admin, the "
                    "IN_DELEVERAGE edge of all four withdraw handlers must pass the checked daily-window update priced low-biased, "
-                   "and the window routine's comparison shapes and reset wiring. Not decided: the dollar arithmetic of the window.",
+                   "and the window routine's comparison shapes and reset wiring; (R5) the risk admin's sunset powers: every "
+                   "update_flag(true, TOKENLESS_REPAYMENTS_COMPLETE) is reachable only over the true edge of get_flag(TOKENLESS_REPAYMENTS_ALLOWED), "
+                   "that flag is set only by Bank::configure, and purging a deposit requires the COMPLETE flag. Not decided: the dollar arithmetic of the window.",
     "assumptions": ["type-level field identity: two accounts of one type are not distinguished by R1 (Rust's &/&mut separates source from destination)",
                     "HealthCache / risk-engine scratch structures written by deleverage brackets are local or cache data"],
 }
